@@ -220,6 +220,12 @@ func init() {
 			} else {
 				signingKey = depPrivateKey(final)
 			}
+			if m.Bool("edsigner") {
+				// a caller who signs with the identity's own Ed25519 key although the offline block announces another transient type
+				if pk, ok := id.priv.(stded.PrivateKey); ok {
+					signingKey = pk
+				}
+			}
 			if a.Str("fn") == "NewEncryptedLeaseSet" {
 				inner := make([]byte, m.Int("innerlen"))
 				rng.Read(inner)
